@@ -619,6 +619,29 @@ theorem PIPE_group_keys_canonical (a : Assign) (nbrs : List (List Nat)) (is : Li
       · cases hi
         exact ⟨_, _, rfl⟩
 
+/-- **Where the string keys handed to `Estimate` come from**: every name the decomposition of a molecule lists is (i) the
+canonical name of a `Group` (from the group loop), or (ii) the name of a correction descriptor of the scheme, or (iii) a remap
+target — (ii) and (iii) exactly as the scheme file spells them.  So the only strings whose *spelling* decides whether data are
+found are descriptor names and remap targets: they must be written as the library keys them (`PIPE_spelling_raw_string_*`). -/
+theorem PIPE_keys_origin (S : SchemeDef) (m : Mol) (res : Counts) (hcf : ChainFree S.remaps)
+    (h : decompose S m = .ok res) (t : String) (ht : t ∈ Counts.keys res) :
+    (∃ csg psgs, t = String.ofList (canon csg psgs)) ∨ (∃ d ∈ S.descs, t = d.name) ∨
+    (∃ k ts, lookupRemap S.remaps k = some ts ∧ ∃ p ∈ ts, p.2 = t) := by
+  obtain ⟨a, ha, _⟩ := getDescriptors_ok _ res h
+  have hnil : (Counts.keys ([] : Counts)).Nodup := by simp [Counts.keys]
+  rcases (getDescriptors_keys _ a res ha h t).mp ht with hg | hd
+  · unfold groupsOf at hg
+    rcases (mem_keys_remapAll _ hcf _ (countGroups_nodup _ _ _ _ hnil) t).mp hg with ⟨h1, _⟩ | ⟨k, _, ts, hts, hp⟩
+    · exact Or.inl (PIPE_group_keys_canonical _ _ _ t h1)
+    · exact Or.inr (Or.inr ⟨k, ts, hts, hp⟩)
+  · unfold descsOf at hd
+    rcases (mem_keys_remapAll _ hcf _ (countDescs_nodup _ [] hnil) t).mp hd with ⟨h1, _⟩ | ⟨k, _, ts, hts, hp⟩
+    · rcases mem_keys_countDescs _ [] t h1 with h' | ⟨d, hd', e⟩
+      · simp [Counts.keys] at h'
+      · obtain ⟨d0, hd0, rfl⟩ := List.mem_map.mp hd'
+        exact Or.inr (Or.inl ⟨d0, hd0, e.symm⟩)
+    · exact Or.inr (Or.inr ⟨k, ts, hts, hp⟩)
+
 /-- **Full statement for string keys — false of the code.**  A *string* key is compared with the stored `Group`'s canonical
 name (`Descriptor.__eq__` against `str`), so a string that spells the group differently finds nothing: the look-up returns
 `{}` and `Estimate` raises `GroupMissingDataError`. -/
